@@ -17,6 +17,20 @@ CHECKS = {
          "3u^2 / 16u^2 bounds by cross-multiplication, a/a = 1, unit and power-of-two divisors, recip == 1.0/x via the determinism memo."),
  "C19": ("exploration", "TLA+ contracts + TLC trace validation of recorded executions (exact dyadic oracle)",
          "truncated / floored quotient semantics decided with exact big-integer division in TLA+ on every recorded %, %=, div_euclid, rem_euclid call (integer, near-integer, tiny and huge quotients, all sign combinations)."),
+ "C01": ("model_checking", "TLA+ state machine with the Normalised clause on every TwoFloat-producing action + TLC trace validation of random programs recorded from the real crate; exhaustive small-format TLC models of the transcribed algorithms",
+         "Normalised (valid or non-finite high word) is evaluated by the spec's own RN after every call of random 50-200-call programs with results fed back, of the directed arithmetic/conversion/rounding corpora, and of 128-bit integer conversions aimed at the tie-beside-odd pattern."),
+ "C06": ("model_checking", "TLA+ contracts (exact comparison of values) + TLC trace validation; relational checks through the determinism memo",
+         "Every comparison operator in every pairing and both argument orders is checked against the exact three-way comparison of the values on related operand pairs (same high word, one low-word ulp apart, sign of zero), f64 comparands incl. infinities/NaN, and NaN-bearing values reachable through the API."),
+ "C07": ("model_checking", "TLA+ definition RN(a+b)=a evaluated by the spec's own RN + TLC trace validation over the complete structural grid",
+         "no_overlap / is_valid / TryFrom are compared with Definition 1.4 computed by the specification on the complete structural grid of the bit-level algorithm (every exponent field x significand classes x thresholds x signs) and on random bit patterns."),
+ "C08": ("model_checking", "TLA+ contracts (exact integer arithmetic on limbs) + TLC trace validation; exhaustive small-format model of the case split",
+         "floor/ceil/trunc/round/fract results must equal the exact functions of the exact value, on directed values covering every branch of the case split (fraction in hi / in lo / in both / nowhere, halves, signs)."),
+ "C09": ("model_checking", "TLA+ contracts (big-integer ranges, exact truncation) + TLC trace validation; exhaustive for the 8/16-bit types",
+         "From<int> is validated for every value of i8/u8/i16/u16 and on boundary-dense / tie-targeted 32-128-bit values; TryFrom at +-1 low-word ulp of every type's bounds; float conversions against the spec's RN at binary32."),
+ "C10": ("model_checking", "determinism memo of the TLA+ machine (one key per operation and operand words) + TLC trace validation of every spelling",
+         "All ~150 spellings of an operand tuple must refine onto one memo entry with identical words; algebraic identities are relations between memo entries."),
+ "C11": ("exploration", "determinism memo across build configurations + exact FMA contract; TLC trace validation of interleaved std / no_std traces",
+         "The same seeded corpus is executed by a default-features and a --no-default-features build; interleaved traces must agree word for word; the cfg-selected fma (hook) is compared with RN(x*y+z) computed by the specification."),
 }
 NOT_YET = {}
 def main():
